@@ -1,15 +1,23 @@
 import Driver.Common
 import DcVerif.Model.Window
+import DcVerif.Model.WindowF1
 /-! Driver for C07. Case header `<kind> <size> <cap|multiple> <ty>`; ops `push v` (answered with the whole
 observation after the push), `obs`, the single accessors and `arr <width>`.
-Every field of every answer is compared with the model (`MISMATCH`) and, on configurations the property speaks
-about, with the spec `Spec.Window.observe size history` (`SPECFAIL`). -/
+Every field of every answer is compared with the model (`MISMATCH`) — the definitions generated from the Rust source,
+`Gen/Window.lean`, run at the element size of the case's type — and, on configurations the property speaks about, with
+the spec `Spec.Window.observe size history` (`SPECFAIL`). -/
 namespace Driver.C07
 open Driver Model.Window
 
 structure St where
   kind : Kind := .arr
   size : Nat := 0
+  /-- `size_of::<T>()` of the case's element type -/
+  tsz : Nat := 8
+  /-- `vec` cases only: the frozen model of the vector storage as it was when F1 was recorded (`Model/WindowF1.lean`).
+  An answer that differs from it is reported as `MISMATCH pinned=F1 …`, so that only the recorded behaviour counts as the
+  known finding; `none` once that model has left `ok` or for other kinds -/
+  pin : Option (Model.Window.St Nat) := none
   /-- model state; anything but `ok` means the model predicts that the case is over (panic / undefined behaviour) -/
   w : Out (Model.Window.St Nat) := .panic
   /-- push history, oldest first (spec state) -/
@@ -26,6 +34,15 @@ def kindOf : String → Option Kind
   | "uarr" => some .uarr
   | "uvec" => some .uvec
   | _ => none
+
+/-- element sizes of the harness' types (`w12` / `w24`: 12- and 24-byte structs) -/
+def tyBytes : String → Nat
+  | "u8" => 1
+  | "u32" => 4
+  | "u64" => 8
+  | "w12" => 12
+  | "w24" => 24
+  | _ => 8
 
 def admissible (k : Kind) (size c : Nat) : Bool :=
   decide (0 < size) &&
@@ -48,7 +65,7 @@ def optStr {β : Type} (f : β → String) : Option β → String
 
 /-- the observation as (field, value) pairs, in the order the harness prints them -/
 def modelFields (o : Model.Window.Obs Nat) : List (String × String) :=
-  [("size", toString o.size), ("empty", boolStr o.empty), ("filled", boolStr o.filled),
+  [("size", outStr toString o.size), ("empty", outStr boolStr o.empty), ("filled", outStr boolStr o.filled),
    ("first", outStr toString o.first), ("last", outStr toString o.last), ("slice", outStr listStr o.slice),
    ("vec", outStr listStr o.vec), ("arr", outStr listStr o.arr)]
 
@@ -79,12 +96,19 @@ def judgeFields (tag : String) (impl : String) (want : List (String × String)) 
     if got.length == want.length && wantStr != "panic" && wantStr != "ub" then
       (want.zip got).filterMap (fun (w, g) =>
         if w == g then none
-        else some s!"{tag} field={w.1} impl={g.2} {if tag == "MISMATCH" then "model" else "spec"}={w.2}")
-    else [s!"{tag} impl={impl} {if tag == "MISMATCH" then "model" else "spec"}={wantStr}"]
+        else some s!"{tag} field={w.1} impl={g.2} {if tag.startsWith "MISMATCH" then "model" else "spec"}={w.2}")
+    else [s!"{tag} impl={impl} {if tag.startsWith "MISMATCH" then "model" else "spec"}={wantStr}"]
+
+/-- the frozen F1 model's observation, reported with the same message shape under the tag `MISMATCH pinned=F1` -/
+def judgePin (s : St) (ans : String) : List String :=
+  match s.pin with
+  | some p => judgeFields "MISMATCH pinned=F1" ans (modelFields (Model.WindowF1.observe p 0))
+  | none => []
 
 def judgeObs (s : St) (w : Model.Window.St Nat) (ans : String) : List String :=
-  judgeFields "MISMATCH" ans (modelFields (observe s.kind w 0)) ++
-  (if s.specOn then judgeFields "SPECFAIL" ans (specFields (Spec.Window.observe s.size s.hist)) else [])
+  let spec := if s.specOn then judgeFields "SPECFAIL" ans (specFields (Spec.Window.observe s.size s.hist)) else []
+  -- the frozen model only qualifies answers that violate the spec: is this the recorded finding or something else?
+  judgeFields "MISMATCH" ans (modelFields (observe s.kind s.tsz w 0)) ++ (if spec.isEmpty then [] else judgePin s ans) ++ spec
 
 /-- single accessor: same message shape as the field-wise comparison -/
 def judge1 (field impl model : String) (spec : Option String) : List String :=
@@ -101,18 +125,30 @@ def single (s : St) (w : Model.Window.St Nat) (op : String) (args : List String)
     Option (String × Option String) :=
   let sp := Spec.Window.observe s.size s.hist
   match op with
-  | "size" => some (toString (size w), some (toString sp.size))
-  | "empty" => some (boolStr (empty w), some (boolStr sp.empty))
-  | "filled" => some (boolStr (filled s.kind w), some (boolStr sp.filled))
-  | "first" => some (outStr toString (first s.kind w), some (optStr toString sp.first))
-  | "last" => some (outStr toString (last s.kind w), some (optStr toString sp.last))
-  | "slice" => some (outStr listStr (slice s.kind w), some (optStr listStr sp.slice))
-  | "vec" => some (outStr listStr (vec s.kind w), some (optStr listStr sp.vec))
+  | "size" => some (outStr toString (size s.kind s.tsz w), some (toString sp.size))
+  | "empty" => some (outStr boolStr (empty s.kind s.tsz w), some (boolStr sp.empty))
+  | "filled" => some (outStr boolStr (filled s.kind s.tsz w), some (boolStr sp.filled))
+  | "first" => some (outStr toString (first s.kind s.tsz w), some (optStr toString sp.first))
+  | "last" => some (outStr toString (last s.kind s.tsz w), some (optStr toString sp.last))
+  | "slice" => some (outStr listStr (slice s.kind s.tsz w), some (optStr listStr sp.slice))
+  | "vec" => some (outStr listStr (vec s.kind s.tsz w), some (optStr listStr sp.vec))
   | "arr" =>
     let k := natArg args 0
     -- the property speaks about the width `size` only; other widths are compared with the model alone
-    some (outStr listStr (arr s.kind w k 0), if k == s.size then some (optStr listStr sp.arr) else none)
+    some (outStr listStr (arr s.kind s.tsz w k 0), if k == s.size then some (optStr listStr sp.arr) else none)
   | _ => none
+
+/-- single accessor against the frozen F1 model -/
+def pinSingle (s : St) (op : String) (args : List String) (ans : String) : List String :=
+  match s.pin with
+  | none => []
+  | some p =>
+    let want : Option String :=
+      if op == "arr" then some (outStr listStr (Model.WindowF1.vecArr p (natArg args 0) 0))
+      else ((modelFields (Model.WindowF1.observe p 0)).find? (fun f => f.1 == op)).map (·.2)
+    match want with
+    | some m => if m == ans then [] else [s!"MISMATCH pinned=F1 field={op} impl={ans} model={m}"]
+    | none => []
 
 def handler : Handler St where
   init := {}
@@ -129,7 +165,9 @@ def handler : Handler St where
         | .err => "err"
         | .panic => "panic"
         | .ub => "ub"
-      let s : St := { kind := k, size := size, w := w, hist := [], specOn := specOn, dead := m != "ok" }
+      let pin := if args.getD 0 "" == "vec" then
+          (match Model.WindowF1.vecNew size c (0 : Nat) with | .ok p => some p | _ => none) else none
+      let s : St := { kind := k, size := size, tsz := tyBytes (args.getD 3 ""), pin := pin, w := w, hist := [], specOn := specOn, dead := m != "ok" }
       (afterAnswer s ans, judge ans (some m) (if specOn then some "ok" else none))
   onOp s op args ans :=
     if s.dead then
@@ -140,8 +178,9 @@ def handler : Handler St where
         match op with
         | "push" =>
           let v := natArg args 0
-          let s := { s with hist := s.hist ++ [v] }
-          match push s.kind w v with
+          let s := { s with hist := s.hist ++ [v],
+                            pin := s.pin.bind (fun p => match Model.WindowF1.vecPush p v with | .ok p' => some p' | _ => none) }
+          match push s.kind s.tsz w v with
           | .ok w' =>
             let s := { s with w := .ok w' }
             (afterAnswer s ans, judgeObs s w' ans)
@@ -153,7 +192,9 @@ def handler : Handler St where
         | "obs" => (afterAnswer s ans, judgeObs s w ans)
         | _ =>
           match single s w op args with
-          | some (m, sp) => (afterAnswer s ans, judge1 op ans m (if s.specOn then sp else none))
+          | some (m, sp) =>
+            let ls := judge1 op ans m (if s.specOn then sp else none)
+            (afterAnswer s ans, ls ++ (if ls.any (·.startsWith "SPECFAIL") then pinSingle s op args ans else []))
           | none => (s, ["MISMATCH unknown-op"])
       | _ => ({ s with dead := true }, judge ans (some "skipped") none)
 
